@@ -452,7 +452,6 @@ func (w *Writer) registerNames() error {
 			w.entryPointNames[ep.Name] = "main"
 		} else {
 			w.names[nameKey{kind: nameKeyEntryPoint, handle1: uint32(epIdx)}] = epName
-			w.entryPointNames[ep.Name] = epName
 		}
 
 		epFuncHandle := uint32(len(w.module.Functions)) + uint32(epIdx)
